@@ -702,6 +702,108 @@ func checkC08(c *Ctx, r *Report) {
 			r.Check(strings.Join(p, ".") == "StatusCode", "C08.R5", fnKey(f)+": UpstreamStatus = resp.StatusCode", c.InstrPos(st), "origin status recorded unchanged", "UpstreamStatus is not the origin's resp.StatusCode")
 		})
 	}
+	// ... and it is the status the response has when it is handed on: a response that a callee may replace in place
+	// (`*resp = *retryResp` after a 416 retry) must not have had its status read before that call — the client would
+	// get the first answer's status with the second answer's headers and body
+	replacers := responseReplacers(li)
+	nRepl := 0
+	for _, h := range li.Fns {
+		if originPkgPath(h) != proxyPkg {
+			continue
+		}
+		eachInstr(h, func(in ssa.Instruction) {
+			c0, ok := in.(*ssa.Call)
+			if !ok {
+				return
+			}
+			g := unwrapSynthetic(staticCallee(c0))
+			if g == nil || replacers[g] == nil {
+				return
+			}
+			for idx := range replacers[g] {
+				args := callArgs(c0)
+				if idx >= len(args) {
+					continue
+				}
+				nRepl++
+				A := args[idx]
+				for _, fc := range helperContexts(h, 3) {
+					eachInstr(fc.fn, func(in2 ssa.Instruction) {
+						st, ok := in2.(*ssa.Store)
+						if !ok {
+							return
+						}
+						fa, isFA := st.Addr.(*ssa.FieldAddr)
+						if !isFA || !strings.HasSuffix(fieldKeyOf(fa.X, fa.Field), "directFetchResult.Response") {
+							return
+						}
+						root, pth := ctxFieldPath(st.Val, fc.ctx)
+						if len(pth) != 0 || !sameVal(root, A) {
+							return
+						}
+						var kLift ssa.Instruction = st
+						if len(fc.ctx) > 0 {
+							kLift = fc.ctx[0]
+						}
+						if kLift != ssa.Instruction(c0) && !reachableInstr(c0, kLift, nil) {
+							return
+						}
+						// the status that travels with this response
+						eachInstr(fc.fn, func(in3 ssa.Instruction) {
+							s2, ok := in3.(*ssa.Store)
+							if !ok {
+								return
+							}
+							fv, _, is := fieldOf(s2.Addr)
+							if !is || (fname(fv) != "UpstreamStatus" && fname(fv) != "fetchInfo") {
+								return
+							}
+							// a status assigned to the record after it was filled as a whole (info.UpstreamStatus =
+							// resp.StatusCode) replaces whatever status the record came with
+							sval, sctx := s2.Val, fc.ctx
+							for hop := 0; hop < 4; hop++ {
+								if prm, isP := sval.(*ssa.Parameter); isP {
+									if a, c2, okA := paramArg(prm, sctx); okA {
+										sval, sctx = a, c2
+										continue
+									}
+								}
+								if ld0, isL := sval.(*ssa.UnOp); isL && ld0.Op == token.MUL {
+									if al, isA := ld0.X.(*ssa.Alloc); isA {
+										if fs := lastFieldStoreBefore(al, "UpstreamStatus", ld0); fs != nil {
+											sval = fs.Val
+										}
+									}
+								}
+								break
+							}
+							derivesFromDeep(sval, sctx, func(v ssa.Value, dc dctx) bool {
+								ld, ok := v.(*ssa.UnOp)
+								if !ok || ld.Op != token.MUL {
+									return false
+								}
+								lfa, ok := ld.X.(*ssa.FieldAddr)
+								if !ok || !strings.HasSuffix(fieldKeyOf(lfa.X, lfa.Field), "net/http.Response.StatusCode") {
+									return false
+								}
+								var l ssa.Instruction = ld
+								if len(dc) > 0 {
+									l = dc[0]
+								}
+								if l.Parent() != h || l == kLift || l == ssa.Instruction(c0) {
+									return false
+								}
+								stale := reachableInstr(l, c0, nil)
+								r.Check(!stale, "C08.R5", fnKey(h)+": relayed status is read after the response's last in-place replacement", c.InstrPos(l), "StatusCode is read after "+g.Name()+" returned", "the status recorded for the relayed response is read at "+c.InstrPos(ld)+" before "+g.Name()+" (which can replace the response in place with the answer to a retry) is called at "+c.InstrPos(c0)+": the client receives the first answer's status with the second answer's headers and body")
+								return false
+							})
+						})
+					})
+				}
+			}
+		})
+	}
+	r.Floor("C08.R5", nRepl, 1, "calls that may replace an upstream response in place")
 	for _, f := range li.Fns {
 		if originPkgPath(f) != "reservoir/utils/countingreader" || f.Name() != "Read" {
 			continue
@@ -813,6 +915,7 @@ func checkC10(c *Ctx, r *Report) {
 	// left of the current request's body has been consumed — otherwise those bytes are parsed as the next
 	// request — and (b) an exchange that ended with an error has ended the tunnel: after a failed or short
 	// write the client and the proxy no longer agree on where the next response starts.
+	nTunnelBodies := 0
 	for _, f := range c.FuncsNamed("(*" + proxyPkg + ".Proxy).handleCONNECT") {
 		for _, hc := range helperContexts(f, 2) {
 			g := hc.fn
@@ -827,9 +930,18 @@ func checkC10(c *Ctx, r *Report) {
 					}
 				}
 			})
+			if read != nil && handle == nil {
+				// the loop that reads the requests hands each exchange to a helper (serveTunnelExchange(conn, req, host)) that
+				// tells it whether the tunnel can go on: the clauses are decided over the pair
+				if tunnelLoopSplit(c, r, li, g, read) {
+					nTunnelBodies++
+				}
+				continue
+			}
 			if read == nil || handle == nil {
 				continue
 			}
+			nTunnelBodies++
 			reqV := extractOf(read, 0)
 			isCopyName := func(n string) bool { return n == "io.Copy" || n == "io.CopyN" || n == "io.ReadAll" }
 			// the reading call inside a helper that drains its reader parameter on every path (discardRest(body))
@@ -997,48 +1109,6 @@ func checkC10(c *Ctx, r *Report) {
 				leaves := walkFrom(pd, func(in2 ssa.Instruction) bool { return in2 == ssa.Instruction(read) }, isReturn, assume)
 				r.Check(len(leaves) == 0, "C10.R8", fnKey(g)+": a request body already consumed by the upstream transport does not end the tunnel", c.InstrPos(dcall), "with the drain's error taken to be http.ErrBodyReadAfterClose every path returns to http.ReadRequest", "the tunnel loop is left when draining the request body fails, also when the failure is http.ErrBodyReadAfterClose — which is what the drain returns for every request body the upstream transport has sent and closed: each POST / PUT ends the tunnel and a request pipelined behind it is never answered, unlike on a plain connection")
 			})
-			// (f) the responder of an exchange is told which request it answers before the exchange runs: the answer to HEAD
-			// has no body whatever is written (an error text after HEAD is read as the start of the next response)
-			{
-				told := false
-				hargs := callArgs(handle)
-				var respV ssa.Value
-				if len(hargs) >= 2 {
-					respV = resolveVal(unconv(hargs[1]))
-				}
-				eachInstr(g, func(in ssa.Instruction) {
-					x, ok := in.(*ssa.Call)
-					if !ok || told || x == handle || !instrDominates(x, handle) {
-						return
-					}
-					h := unwrapSynthetic(staticCallee(x))
-					if h == nil || h.Blocks == nil || originPkgPath(h) != "reservoir/proxy/responder" {
-						return
-					}
-					onResp, withReq := respV != nil && ssa.Value(x) == respV, false // the constructor itself may take the request
-					for _, a := range callArgs(x) {
-						if respV != nil && resolveVal(unconv(a)) == respV {
-							onResp = true
-						}
-						if reqV != nil && derivesFrom(a, func(v ssa.Value) bool { return v == ssa.Value(reqV) }) {
-							withReq = true
-						}
-					}
-					if !onResp || !withReq {
-						return
-					}
-					for _, hh := range pkgGroup(li, h) {
-						eachInstr(hh, func(i2 ssa.Instruction) {
-							if st, ok := i2.(*ssa.Store); ok {
-								if fv, _, is := fieldOf(st.Addr); is && fname(fv) == "Request" {
-									told = true
-								}
-							}
-						})
-					}
-				})
-				r.Check(told, "C10.R7", fnKey(g)+": the exchange's responder knows the request method", c.InstrPos(handle), "a responder method that records the request (response.Request) is called with this exchange's request before handleHTTP", "the tunnel responder is not told which request it answers: an error answer (502, 416, 508 ...) to a HEAD request is written with its message as body, which the client does not read after HEAD and takes for the start of the next response")
-			}
 			// (c) a request that cannot be parsed is answered (400) before the tunnel is given up, as on a plain connection:
 			// from the err != nil edge of ReadRequest every way out passes a WriteError, except where the error is io.EOF
 			if rerr := extractOf(read, 1); rerr != nil {
@@ -1128,6 +1198,68 @@ func checkC10(c *Ctx, r *Report) {
 			r.Check(!errBack, "C10.R8", fnKey(g)+": a failed exchange ends the tunnel", c.InstrPos(handle), "the incomplete-response side of handleHTTP's error cannot reach http.ReadRequest again", "after an exchange whose response was cut short (e.g. the origin sent less than the Content-Length it announced) the loop goes on reading requests: the next response is written into the middle of the broken one")
 		}
 	}
+
+	r.Floor("C10.R8", nTunnelBodies, 1, "tunnel request loops analysed (a body that reads the requests, together with the exchange it runs)")
+
+	// R7(f): the responder of an exchange on a raw connection is told which request it answers before the exchange
+	// runs: the answer to HEAD has no body whatever is written (an error text after HEAD is read as the start of the
+	// next response). Decided at every handleHTTP call whose responder is the raw one, wherever the tunnel loop put it.
+	nRawEx := 0
+	for _, g := range li.Fns {
+		if originPkgPath(g) != proxyPkg {
+			continue
+		}
+		eachInstr(g, func(hin ssa.Instruction) {
+			handle, ok := hin.(*ssa.Call)
+			if !ok || calleeName(handle) != "(*"+proxyPkg+".Proxy).handleHTTP" {
+				return
+			}
+			hargs := callArgs(handle)
+			if len(hargs) < 3 {
+				return
+			}
+			respV := resolveVal(unconv(hargs[1]))
+			if !strings.HasSuffix(canonTypes(respV.Type().String()), "responder.RawHTTPResponder") {
+				return
+			}
+			nRawEx++
+			reqV := resolveVal(hargs[2])
+			told := false
+			eachInstr(g, func(in ssa.Instruction) {
+				x, ok := in.(*ssa.Call)
+				if !ok || told || x == handle || !instrDominates(x, handle) {
+					return
+				}
+				h := unwrapSynthetic(staticCallee(x))
+				if h == nil || h.Blocks == nil || originPkgPath(h) != "reservoir/proxy/responder" {
+					return
+				}
+				onResp, withReq := ssa.Value(x) == respV, false // the constructor itself may take the request
+				for _, a := range callArgs(x) {
+					if resolveVal(unconv(a)) == respV {
+						onResp = true
+					}
+					if derivesFrom(a, func(v ssa.Value) bool { return v == reqV || resolveVal(v) == reqV }) {
+						withReq = true
+					}
+				}
+				if !onResp || !withReq {
+					return
+				}
+				for _, hh := range pkgGroup(li, h) {
+					eachInstr(hh, func(i2 ssa.Instruction) {
+						if st, ok := i2.(*ssa.Store); ok {
+							if fv, _, is := fieldOf(st.Addr); is && fname(fv) == "Request" {
+								told = true
+							}
+						}
+					})
+				}
+			})
+			r.Check(told, "C10.R7", fnKey(g)+": the exchange's responder knows the request method", c.InstrPos(handle), "a responder method that records the request (response.Request) is called with this exchange's request before handleHTTP", "the tunnel responder is not told which request it answers: an error answer (502, 416, 508 ...) to a HEAD request is written with its message as body, which the client does not read after HEAD and takes for the start of the next response")
+		})
+	}
+	r.Floor("C10.R7", nRawEx, 1, "exchanges answered through the raw responder")
 
 	// R8(d): a failed Responder.Write is reported as an incomplete response (so that the tunnel loop can tell it from
 	// an exchange that was answered in full)
@@ -1221,7 +1353,70 @@ func checkC10(c *Ctx, r *Report) {
 			key := fmt.Sprintf("%s: handleHTTP call #%d", fnKey(f), nCalls)
 			alloc, isCall := respArg.(*ssa.Call)
 			if !inLoop {
-				r.OkT("C10.R1", key, c.InstrPos(in), "not in a loop: one responder, one exchange")
+				// the exchange may have been moved into a helper that the request loop calls (serveTunnelExchange):
+				// the loop is then the caller's, and the responder is fresh if the helper constructs it, or if the
+				// caller constructs the one it passes inside its loop
+				var loopSites []*ssa.Call
+				var up func(g *ssa.Function, d int)
+				seenUp := map[*ssa.Function]bool{}
+				up = func(g *ssa.Function, d int) {
+					if d > 2 || seenUp[g] {
+						return
+					}
+					seenUp[g] = true
+					for _, cs := range li.Callers[g] {
+						cc, ok := cs.in.(*ssa.Call)
+						if !ok || originPkgPath(cs.in.Parent()) != proxyPkg {
+							continue
+						}
+						if reachableInstr(cc, cc, nil) {
+							if g == f {
+								loopSites = append(loopSites, cc)
+							} else {
+								loopSites = append(loopSites, nil) // a loop further up: the helper chain runs once per iteration
+							}
+						} else {
+							up(cs.in.Parent(), d+1)
+						}
+					}
+				}
+				up(f, 0)
+				if len(loopSites) == 0 {
+					r.OkT("C10.R1", key, c.InstrPos(in), "not in a loop: one responder, one exchange")
+					return
+				}
+				nLoopCalls++
+				if isCall && strings.HasPrefix(calleeName(alloc), responderPkg+".New") {
+					r.OkT("C10.R1", key, c.InstrPos(in), "responder constructed by the per-exchange helper the request loop calls")
+					return
+				}
+				okAll := true
+				if prm, isP := respArg.(*ssa.Parameter); isP {
+					for _, cc := range loopSites {
+						if cc == nil {
+							okAll = false
+							continue
+						}
+						idx := -1
+						for i, q := range f.Params {
+							if q == prm {
+								idx = i
+							}
+						}
+						a := callArgs(cc)
+						if idx < 0 || idx >= len(a) {
+							okAll = false
+							continue
+						}
+						ac, isC := resolveVal(unconv(a[idx])).(*ssa.Call)
+						if !isC || !strings.HasPrefix(calleeName(ac), responderPkg+".New") || !reachableInstr(cc, ac, nil) {
+							okAll = false
+						}
+					}
+				} else {
+					okAll = false
+				}
+				r.Check(okAll, "C10.R1", key, c.InstrPos(in), "the request loop constructs the responder it hands to the per-exchange helper inside the iteration", "one responder is constructed before the request loop and reused for every exchange on the tunnel: headers, Content-Length and Transfer-Encoding of one response frame the next")
 				return
 			}
 			nLoopCalls++
@@ -1367,4 +1562,368 @@ func setHeadersForms(c *Ctx, li *LockInfo, r *Report, rule string) map[string]st
 func isHTTPHeaderType(t types.Type) bool {
 	s := t.String()
 	return s == "net/http.Header" || s == "net/textproto.MIMEHeader" || s == "map[string][]string"
+}
+
+// responseReplacers: the functions of package proxy that may overwrite the http.Response one of their parameters
+// points to (`*resp = ...`), themselves or through a same-package callee they hand the parameter to; per function
+// the indices of such parameters.
+func responseReplacers(li *LockInfo) map[*ssa.Function]map[int]bool {
+	out := map[*ssa.Function]map[int]bool{}
+	isResp := func(p *ssa.Parameter) bool {
+		return strings.HasSuffix(p.Type().String(), "*net/http.Response")
+	}
+	mark := func(f *ssa.Function, i int) bool {
+		if out[f] == nil {
+			out[f] = map[int]bool{}
+		}
+		if out[f][i] {
+			return false
+		}
+		out[f][i] = true
+		return true
+	}
+	var fns []*ssa.Function
+	for _, f := range li.Fns {
+		if originPkgPath(f) == proxyPkg {
+			fns = append(fns, f)
+		}
+	}
+	for _, f := range fns {
+		for i, p := range f.Params {
+			if !isResp(p) {
+				continue
+			}
+			eachInstr(f, func(in ssa.Instruction) {
+				if st, ok := in.(*ssa.Store); ok && sameVal(st.Addr, p) {
+					mark(f, i)
+				}
+			})
+		}
+	}
+	for changed := true; changed; {
+		changed = false
+		for _, f := range fns {
+			for i, p := range f.Params {
+				if !isResp(p) {
+					continue
+				}
+				eachInstr(f, func(in ssa.Instruction) {
+					call, ok := in.(*ssa.Call)
+					if !ok {
+						return
+					}
+					g := unwrapSynthetic(staticCallee(call))
+					if g == nil || out[g] == nil {
+						return
+					}
+					for j, a := range callArgs(call) {
+						if out[g][j] && sameVal(a, p) {
+							if mark(f, i) {
+								changed = true
+							}
+						}
+					}
+				})
+			}
+		}
+	}
+	return out
+}
+
+// lastFieldStoreBefore: the store to field `field` of the local struct a that decides the field's value at the load
+// ld of the whole struct: it dominates ld, and no other store to that field or to the whole struct lies between.
+func lastFieldStoreBefore(a *ssa.Alloc, field string, ld ssa.Instruction) *ssa.Store {
+	var fieldStores, others []*ssa.Store
+	if refs := a.Referrers(); refs != nil {
+		for _, ref := range *refs {
+			switch x := ref.(type) {
+			case *ssa.FieldAddr:
+				fv, _, is := fieldOf(x)
+				for _, st := range storesTo(x) {
+					if is && fname(fv) == field {
+						fieldStores = append(fieldStores, st)
+					}
+				}
+			case *ssa.Store:
+				if x.Addr == ssa.Value(a) {
+					others = append(others, x)
+				}
+			}
+		}
+	}
+	for _, st := range fieldStores {
+		if !instrDominates(st, ld) {
+			continue
+		}
+		clean := true
+		for _, o := range append(append([]*ssa.Store{}, others...), fieldStores...) {
+			if o != st && reachableInstr(st, o, nil) && reachableInstr(o, ld, nil) {
+				clean = false
+			}
+		}
+		if clean {
+			return st
+		}
+	}
+	return nil
+}
+
+// tunnelLoopSplit decides C10.R8 for a tunnel loop whose body g reads the requests (read) and hands each one to a
+// same-package helper H that runs the exchange and reports, as a bool, whether the tunnel can carry another one:
+//
+//	(a) the loop reads the next request only where H said yes, and H says yes only after the rest of the request body
+//	    has been consumed (itself, or by a helper whose yes it passes on);
+//	(b) on the incomplete-response side of handleHTTP's error H says no;
+//	(c) an unparseable request is answered before the tunnel closes (in g);
+//	(e) a drain that fails with http.ErrBodyReadAfterClose still ends in yes.
+//
+// Returns false (after reporting "undecided") if the pair has another shape.
+func tunnelLoopSplit(c *Ctx, r *Report, li *LockInfo, g *ssa.Function, read *ssa.Call) bool {
+	reqV := extractOf(read, 0)
+	if reqV == nil {
+		return false
+	}
+	// the exchange helper: called in g with the request, contains the handleHTTP call, returns one bool
+	var k *ssa.Call
+	var H *ssa.Function
+	var handle *ssa.Call
+	reqIdx := -1
+	eachInstr(g, func(in ssa.Instruction) {
+		x, ok := in.(*ssa.Call)
+		if !ok || k != nil {
+			return
+		}
+		h := helperBody(x)
+		if h == nil {
+			return
+		}
+		hc := findCall(h, "(*"+proxyPkg+".Proxy).handleHTTP")
+		if hc == nil {
+			return
+		}
+		for i, a := range callArgs(x) {
+			if resolveVal(a) == ssa.Value(reqV) {
+				k, H, handle, reqIdx = x, h, hc, i
+			}
+		}
+	})
+	if k == nil {
+		return false
+	}
+	key := fnKey(g) + " + " + fnKey(H)
+	if res := H.Signature.Results(); res.Len() != 1 || !isBoolType(res.At(0).Type()) {
+		r.Undecided("C10.R8", key+": tunnel loop split over a helper", c.InstrPos(k), "the per-exchange helper does not report with a single bool whether the tunnel goes on: the drain / end-of-tunnel clauses are not decided for this shape")
+		return false
+	}
+	isCopyName := func(n string) bool { return n == "io.Copy" || n == "io.CopyN" || n == "io.ReadAll" }
+	// drains of the request (a parameter of fn) in fn
+	drainsIn := func(fn *ssa.Function, reqP ssa.Value) []*ssa.Call {
+		var out []*ssa.Call
+		eachInstr(fn, func(in ssa.Instruction) {
+			x, ok := in.(*ssa.Call)
+			if !ok || !isCopyName(calleeName(x)) {
+				return
+			}
+			for _, a := range callArgs(x) {
+				if _, pth := fieldPath(unconv(a)); len(pth) > 0 && pth[len(pth)-1] == "Body" && derivesFrom(a, func(v ssa.Value) bool { return v == reqP }) {
+					out = append(out, x)
+				}
+			}
+		})
+		return out
+	}
+	isClosedTest := func(v ssa.Value) (neg bool, ok bool) {
+		for {
+			if u, isU := v.(*ssa.UnOp); isU && u.Op == token.NOT {
+				neg, v = !neg, u.X
+				continue
+			}
+			break
+		}
+		if x, isC := v.(*ssa.Call); isC && calleeName(x) == "errors.Is" && len(x.Call.Args) == 2 {
+			if u, isU := unconv(x.Call.Args[1]).(*ssa.UnOp); isU {
+				if gl, isG := u.X.(*ssa.Global); isG && gname(gl) == "ErrBodyReadAfterClose" {
+					return neg, true
+				}
+			}
+		}
+		return false, false
+	}
+	// yesOnlyAfterDrain: every return of fn that may be true lies behind a drain of the request; closedStillYes: with
+	// the drain's error taken to be ErrBodyReadAfterClose, every return reached from the drain is true
+	var yesOnlyAfterDrain func(fn *ssa.Function, reqP ssa.Value, d int) (bool, bool)
+	yesOnlyAfterDrain = func(fn *ssa.Function, reqP ssa.Value, d int) (afterDrain bool, closedYes bool) {
+		if d > 2 {
+			return false, false
+		}
+		drains := drainsIn(fn, reqP)
+		isDrain := func(in ssa.Instruction) bool {
+			for _, dc := range drains {
+				if in == ssa.Instruction(dc) {
+					return true
+				}
+			}
+			return false
+		}
+		afterDrain, closedYes = true, true
+		eachInstr(fn, func(in ssa.Instruction) {
+			ret, ok := in.(*ssa.Return)
+			if !ok || isRecoverReturn(ret) {
+				return
+			}
+			v := retVals(ret)[0]
+			if b, isC := constBool(v); isC && !b {
+				return
+			}
+			if mustPassBefore(fn, ret, isDrain, nil) {
+				return
+			}
+			// the yes of another helper that is handed the request
+			if hc2, isCall := resolveVal(v).(*ssa.Call); isCall {
+				if h2 := helperBody(hc2); h2 != nil {
+					for i, a := range callArgs(hc2) {
+						if resolveVal(a) == reqP && i < len(h2.Params) {
+							a2, c2 := yesOnlyAfterDrain(h2, h2.Params[i], d+1)
+							if a2 {
+								if !c2 {
+									closedYes = false
+								}
+								return
+							}
+						}
+					}
+				}
+			}
+			afterDrain = false
+		})
+		for _, dc := range drains {
+			var derr ssa.Value
+			if tup, isT := dc.Type().(*types.Tuple); isT {
+				if ex := extractOf(dc, tup.Len()-1); ex != nil {
+					derr = ex
+				}
+			}
+			if derr == nil {
+				continue // the error is ignored: nothing can say no on it
+			}
+			nn := pruneNil(fn, derr, false)
+			assume := func(b *ssa.BasicBlock, si int) bool {
+				if nn(b, si) {
+					return true
+				}
+				if ifi, ok := b.Instrs[len(b.Instrs)-1].(*ssa.If); ok {
+					if neg, is := isClosedTest(ifi.Cond); is {
+						trueEdge := 0
+						if neg {
+							trueEdge = 1
+						}
+						return si != trueEdge
+					}
+				}
+				return false
+			}
+			pd := posOf(dc)
+			pd.i++
+			for _, e := range walkFrom(pd, nil, isReturn, assume) {
+				if b, isC := constBool(retVals(e.(*ssa.Return))[0]); !isC || !b {
+					closedYes = false
+				}
+			}
+		}
+		return afterDrain, closedYes
+	}
+	// (a) in g: the next request is read only on the yes side of the helper's answer
+	yes := pruneTruth(g, k, true)
+	onlyOnYes := len(ifsOn(g, k)) > 0 && !func() bool {
+		p0 := posOf(k)
+		p0.i++
+		// with the yes edges removed, ReadRequest must be out of reach
+		noYes := func(b *ssa.BasicBlock, si int) bool {
+			for _, u := range ifsOn(g, k) {
+				if u.blk == b {
+					return (si == 0) == u.positive
+				}
+			}
+			return false
+		}
+		return len(walkFrom(p0, nil, func(in ssa.Instruction) bool { return in == ssa.Instruction(read) }, noYes)) > 0
+	}()
+	_ = yes
+	afterDrain, closedYes := yesOnlyAfterDrain(H, H.Params[reqIdx], 0)
+	r.Check(onlyOnYes && afterDrain, "C10.R8", key+": the request body is consumed before the next request is read", c.InstrPos(k), "the loop goes on only where the exchange helper said yes, and it says yes only behind io.Copy(io.Discard, req.Body)", "the tunnel loop reads the next request without the rest of the current request's body having been consumed (the per-exchange helper can report 'go on' without draining, or the loop goes on whatever it reports): a body the handler did not read is parsed as the next request")
+	r.Check(closedYes, "C10.R8", key+": a request body already consumed by the upstream transport does not end the tunnel", c.InstrPos(k), "with the drain's error taken to be http.ErrBodyReadAfterClose the helper still reports yes", "draining a request body the upstream transport has sent and closed fails with http.ErrBodyReadAfterClose, and the helper then reports that the tunnel cannot go on: each POST / PUT ends the tunnel and a request pipelined behind it is never answered")
+	// (b) in H: on the incomplete-response side every return says no
+	endsOnIncomplete := false
+	for _, blk := range H.Blocks {
+		iff, ok := blk.Instrs[len(blk.Instrs)-1].(*ssa.If)
+		if !ok {
+			continue
+		}
+		cv, positive := stripNot(iff.Cond)
+		isCall, ok := cv.(*ssa.Call)
+		if !ok || calleeName(isCall) != "errors.Is" || !derivesFrom(isCall.Call.Args[0], func(v ssa.Value) bool { return v == ssa.Value(handle) }) {
+			continue
+		}
+		u, ok := isCall.Call.Args[1].(*ssa.UnOp)
+		if !ok {
+			continue
+		}
+		gl, ok := u.X.(*ssa.Global)
+		if !ok || gname(gl) != "ErrResponseIncomplete" {
+			continue
+		}
+		trueIdx := 0
+		if !positive {
+			trueIdx = 1
+		}
+		allNo := true
+		for _, e := range walkFrom(pos{blk.Succs[trueIdx], 0}, nil, isReturn, nil) {
+			if b, isC := constBool(retVals(e.(*ssa.Return))[0]); !isC || b {
+				allNo = false
+			}
+		}
+		if allNo {
+			endsOnIncomplete = true
+		}
+	}
+	r.Check(endsOnIncomplete && onlyOnYes, "C10.R8", key+": a failed exchange ends the tunnel", c.InstrPos(handle), "on the incomplete-response side of handleHTTP's error the helper reports no, and the loop reads on only after a yes", "after an exchange whose response was cut short the loop goes on reading requests: the next response is written into the middle of the broken one")
+	// (c) in g: a request that cannot be parsed is answered before the tunnel is given up
+	if rerr := extractOf(read, 1); rerr != nil {
+		unanswered := false
+		skipEOF := func(b *ssa.BasicBlock, si int) bool {
+			iff, ok := b.Instrs[len(b.Instrs)-1].(*ssa.If)
+			if !ok {
+				return false
+			}
+			cv, positive := stripNot(iff.Cond)
+			call, ok := cv.(*ssa.Call)
+			if !ok || calleeName(call) != "errors.Is" {
+				return false
+			}
+			if u, ok := call.Call.Args[1].(*ssa.UnOp); ok {
+				if gl, ok := u.X.(*ssa.Global); ok && (gname(gl) == "EOF" || gname(gl) == "ErrUnexpectedEOF") {
+					return (si == 0) == positive
+				}
+			}
+			return false
+		}
+		isWrite := func(in ssa.Instruction) bool {
+			x, ok := in.(*ssa.Call)
+			if !ok {
+				return false
+			}
+			n := calleeName(x)
+			return strings.HasSuffix(n, "RawHTTPResponder).WriteError") || strings.HasSuffix(n, "responder.Responder).WriteError")
+		}
+		for _, t := range nilTestsOn(g, rerr) {
+			nonNil := t.blk.Succs[1-t.nilIdx]
+			if len(walkFrom(pos{nonNil, 0}, isWrite, isReturn, skipEOF)) > 0 {
+				unanswered = true
+			}
+		}
+		// the EOF test may come first (`if errors.Is(err, io.EOF) { return }; if err != nil { answer }`): then the
+		// non-nil side is reached with EOF already excluded, which the walk above covers as well
+		r.Check(!unanswered && len(nilTestsOn(g, rerr)) > 0, "C10.R8", key+": an unparseable request on the tunnel is answered before the tunnel closes", c.InstrPos(read), "the non-EOF error edge of http.ReadRequest passes WriteError", "a malformed request inside a CONNECT tunnel makes the loop close the connection without any response; the same bytes on a plain connection get 400 Bad Request")
+	}
+	return true
 }
